@@ -22,7 +22,7 @@ from statham.schema.validation.format import format_checker
 PROP = "C16"
 LEVEL = "model_checking"
 RULE = (
-    "(A) explicit-state BFS over registration histories (4 format names x 3 predicates, depth 3 quick / 4 thorough = the whole "
+    "(A) explicit-state BFS over registration histories (4 format names x 4 predicates incl. one that itself consults an unregistered format, depth 3 quick / 4 thorough = the whole "
     "reachable registry space); in every state all (5 element kinds x 4 names x 12 values) verdicts and warning counts are "
     "compared with a name->predicate reference dict; (B) exhaustive enumeration of a canonical-UUID family (every hex digit at "
     "every position, all versions/variants, upper/lower) and of the product of per-field boundary sets of RFC 3339 timestamps; "
@@ -31,7 +31,8 @@ RULE = (
 ASSUMPTIONS = ["second 60 is generated only at real leap-second instants; the registry is saved and restored around every history"]
 
 NAMES = ["uuid", "date-time", "x-unregistered", "x-custom"]
-PREDS = {"always_true": lambda s: True, "always_false": lambda s: False, "is_lower": lambda s: s.islower()}
+PREDS = {"always_true": lambda s: True, "always_false": lambda s: False, "is_lower": lambda s: s.islower(), "delegates_to_unregistered": lambda s: format_checker("x-inner-unregistered", s)}
+INNER_WARNS = {"delegates_to_unregistered": 1}
 VALUES = ["abc", "ABC", "", "123e4567-e89b-12d3-a456-426614174000", "2020-02-29T23:59:59Z", "1", 1, None, True, ["abc"], {"a": "abc"}, 1.5]
 _PRISTINE = dict(format_checker._callable_register)
 
@@ -75,10 +76,12 @@ def check_state(st, model, hist_names):
                 if isinstance(v, str):
                     if name in model:
                         try:
-                            ok = bool(model[name][1](v))
+                            with warnings.catch_warnings():
+                                warnings.simplefilter("ignore")
+                                ok = bool(model[name][1](v))
                         except Exception:
                             ok = None
-                        want, want_warn = ("ACCEPT" if ok else "REJECT"), 0
+                        want, want_warn = ("ACCEPT" if ok else "REJECT"), INNER_WARNS.get(model[name][0], 0)
                     else:
                         want, want_warn = "ACCEPT", 1
                 else:
@@ -151,7 +154,9 @@ def run_registry(st, first, depth):
                 kind, nwarn = call(el, wrap(v))
                 st.add("evaluations")
                 if name in ref:
-                    want, want_warn = ("ACCEPT" if ref[name][1](v) else "REJECT"), 0
+                    with warnings.catch_warnings():
+                        warnings.simplefilter("ignore")
+                        want, want_warn = ("ACCEPT" if ref[name][1](v) else "REJECT"), INNER_WARNS.get(ref[name][0], 0)
                 else:
                     want, want_warn = "ACCEPT", 1
                 if kind != want or nwarn != want_warn:
